@@ -27,7 +27,7 @@ static inline DataType Variant_type(const Variant *v)
 { return v->dtype; }
 static inline DataSet PropertyHDF5_dataset(const PropertyHDF5 *self)
 { DataSet d; d._d = 1; return d; }
-static inline void PropertyHDF5_deleteValues(PropertyHDF5 *self)
+static inline void PropertyHDF5_deleteValues_rec(PropertyHDF5 *self)
 { gh_delete_calls++; }
 static inline H5DataType DataSet_dataType(const DataSet *d)
 { H5DataType t; t._t = 0; return t; }
